@@ -1960,12 +1960,19 @@ XMLReader::xcodeMoreChars(          XMLCh* const            bufToFill
         {
             refreshRawBuffer();
 
-            // If there are no characters or if we need more but didn't get
-            // any, return zero now.
+            // If there are no more bytes at all, return zero now.
             //
-            if (fRawBytesAvail == 0 ||
-                (needMode && (bytesLeft == fRawBytesAvail - fRawBufIndex)))
+            if (fRawBytesAvail == 0)
                 return 0;
+
+            //
+            //  If we need more to complete a character but the stream has
+            //  nothing more to give, the entity ends in the middle of a
+            //  multi-byte sequence. That must not look like a normal end
+            //  of input, otherwise the left over bytes are dropped silently.
+            //
+            if (needMode && (bytesLeft == fRawBytesAvail - fRawBufIndex))
+                ThrowXMLwithMemMgr(TranscodingException, XMLExcepts::Trans_BadSrcSeq, fMemoryManager);
         }
 
         // Ask the transcoder to internalize another batch of chars. It is
